@@ -182,11 +182,49 @@ func c18DNS(line string, queries []string) string {
 	})
 }
 
+// c18LongName builds a syntactically valid domain name of exactly n bytes (labels of at most 63 letters).
+func c18LongName(n int) string {
+	var sb strings.Builder
+	for sb.Len() < n {
+		left := n - sb.Len()
+		l := 63
+		if left < 64 {
+			l = left
+		} else if left == 64 {
+			l = 62 // leave room for a dot and at least one more letter
+		}
+		sb.WriteString(strings.Repeat("a", l))
+		if sb.Len() < n {
+			sb.WriteByte('.')
+		}
+	}
+
+	return sb.String()
+}
+
 func genC18(r *rng, n int, w *bufio.Writer) {
 	for i := 0; i < n; i++ {
 		line, names := c18Line(r)
 		if r.chance(1, 8) {
 			line = mutateBytes(r, line)
+		}
+		var extraQueries []string
+		switch {
+		case r.chance(1, 25):
+			// a bare domain at the length limit of IsDomainName (253) and next to it
+			nm := c18LongName(250 + r.n(6))
+			line, names = nm+pick(r, []string{"", " ", " # c", "\t#c"}), []string{nm}
+		case r.chance(1, 25):
+			// a comment running past the scanner's 4096-byte read buffer whose text from byte 4096 on looks
+			// like a hosts line of its own: it must stay a comment
+			tail := fmt.Sprintf("remark%d.example", r.n(100))
+			head := pick(r, []string{"0.0.0.0 ", "::1 ", "10.0.0.1\t"}) + strings.Join(names, " ")
+			if len(names) == 0 || strings.ContainsAny(head, "#\n\r") {
+				head, names = "0.0.0.0 listed.example", []string{"listed.example"}
+			}
+			head += " # "
+			line = head + strings.Repeat(pick(r, []string{"x", "-", "c "}), 4096)[:4096-len(head)] + tail
+			extraQueries = []string{tail}
 		}
 		cands := c18Cands(line)
 		tables := waddrs(cands...) + " " + wdn(cands...)
@@ -217,6 +255,7 @@ func genC18(r *rng, n int, w *bufio.Writer) {
 			}
 		}
 		qs = append(qs, "unlisted.example")
+		qs = append(qs, extraQueries...)
 		for _, p := range c02HostCollisions() {
 			for _, nm := range names {
 				if nm == p[0] {
